@@ -97,12 +97,19 @@ def index_guarded(node, expr, k, fn, names):
         if p:
             if tt == ee and k == 0:
                 return 'truthiness of %s' % e
-            for op, need in (('==', lambda n: n > k), ('>', lambda n: n >= k),
-                             ('>=', lambda n: n >= k + 1)):
-                pre = 'len(%s)%s' % (ee, op)
-                if tt.startswith(pre):
+            pre = 'len(%s)==' % ee
+            if tt.startswith(pre):
+                try:
+                    if int(tt[len(pre):]) > k:
+                        return t
+                except ValueError:
+                    pass
+            # the loader orients every ordering comparison as  n < len(e)  /  n <= len(e)
+            for op, need in (('<', lambda n: n >= k), ('<=', lambda n: n >= k + 1)):
+                post = '%slen(%s)' % (op, ee)
+                if tt.endswith(post):
                     try:
-                        n = int(tt[len(pre):])
+                        n = int(tt[:-len(post)])
                     except ValueError:
                         continue
                     if need(n):
